@@ -117,6 +117,7 @@ const TOPOLOGIES: &[&str] = &[
     "foreign-thread",
     "clone-thread-panics",
     "fixture-verify",
+    "thread-caught-then-continue",
 ];
 
 /// what the first panic message must contain
@@ -146,7 +147,9 @@ fn expected_marker(point: &str) -> &'static str {
 fn applicable(point: &str, topology: &str) -> bool {
     match topology {
         // the fault is caught; afterwards the same call must work and verification must judge the counts
-        "caught-then-continue" => matches!(point, "matcher" | "answer" | "real" | "default" | "debug" | "clone"),
+        "caught-then-continue" | "thread-caught-then-continue" => {
+            matches!(point, "matcher" | "answer" | "real" | "default" | "debug" | "clone")
+        }
         // the by-value provided method only reaches its own body and `other()`
         "by-value" => matches!(point, "default" | "mock-NoMockImpl"),
         // Rc is not Send: fine on one thread. box-dyn only exposes K2
@@ -372,6 +375,63 @@ fn child(id: &str) {
             // uniform protocol with the other scenarios: exit like a reported panic
             std::process::exit(101);
         }
+        "thread-caught-then-continue" => {
+            // a worker thread that owns a clone dies from the user fault (its clone is dropped while that thread
+            // unwinds); the test thread handles the join error, repeats the call on the original and lets it verify:
+            // user panics leave no trace, verification judges the counts
+            let u = build(point, false);
+            let mut handles = vec![];
+            for _ in 0..=extra {
+                let c = u.clone();
+                let p = point.to_string();
+                handles.push(std::thread::spawn(move || {
+                    let c = c;
+                    body(&c, &p);
+                }));
+                // one worker at a time: ARMED is global
+                let h = handles.pop().unwrap();
+                if h.join().is_ok() {
+                    eprintln!("SCENARIO-DID-NOT-PANIC");
+                }
+                ARMED.store(false, Ordering::SeqCst);
+                if point == "debug" {
+                    break;
+                }
+            }
+            let again = std::panic::catch_unwind(std::panic::AssertUnwindSafe(|| match point {
+                "matcher" | "answer" | "real" | "clone" => {
+                    let _ = u.k(Arg(1));
+                }
+                "debug" => {
+                    let _ = std::panic::catch_unwind(std::panic::AssertUnwindSafe(|| u.k(Arg(1))));
+                }
+                "default" => {
+                    let _ = u.prov(1);
+                }
+                _ => {}
+            }));
+            if again.is_err() {
+                eprintln!("CONTINUE-FAILED after a {point} panic on a worker thread the same call panics on the original");
+                std::process::exit(1);
+            }
+            let v = std::panic::catch_unwind(std::panic::AssertUnwindSafe(move || drop(u)));
+            let verification_failed = v.is_err();
+            if verification_failed != (point == "debug") {
+                let msg = v
+                    .err()
+                    .map(|p| {
+                        p.downcast_ref::<String>()
+                            .cloned()
+                            .or(p.downcast_ref::<&str>().map(|s| s.to_string()))
+                            .unwrap_or_default()
+                    })
+                    .unwrap_or_default();
+                eprintln!("CONTINUE-FAILED verification after a {point} panic on a worker thread: failed={verification_failed} {msg}");
+                std::process::exit(1);
+            }
+            eprintln!("CONTINUE-OK");
+            std::process::exit(101);
+        }
         "orig-only" => {
             let u = build(point, unmet);
             for _ in 0..extra {
@@ -518,7 +578,7 @@ fn scenarios() -> Vec<String> {
             for unmet in ["met", "unmet"] {
                 let extras: &[usize] = match *t {
                     "orig-only" | "clone-outlives" | "clone-other-thread" | "by-value" | "caught-then-continue"
-                    | "fixture-verify" => &[0, 2],
+                    | "fixture-verify" | "thread-caught-then-continue" => &[0, 2],
                     _ => &[0],
                 };
                 for e in extras {
